@@ -168,3 +168,46 @@ Qed.
 Lemma restart_with_keeps_state c r : kc (restart_with c r) = kc c /\ msgs (restart_with c r) = msgs c /\ dedup (restart_with c r) = dedup c /\ retention (restart_with c r) = r.
 Proof. repeat split. Qed.
 End RetentionChange.
+
+(* ---------------------------------------------------------------- C05: the ONLY automatic commit is an admin committing a
+   member's own request to leave.  A Remove proposal that names another member (built directly with the MLS library - the API
+   does not create one) is queued by every receiver, admin or not, and creates no commit. *)
+Section ThirdPartyRemove.
+  Lemma third_party_remove_never_auto : forall c e r,
+    self_remove e = false ->
+    snd (leave_here c e r) <> RAuto /\ k_pending (kc (fst (leave_here c e r))) = k_pending (kc c).
+  Proof.
+    intros c e r Hs. unfold leave_here, fail_unprocessable.
+    destruct (existsb (N.eqb (100000 + e_id e)) (k_seen (kc c))).
+    - cbn [snd fst]. split; [discriminate|reflexivity].
+    - cbv zeta. rewrite Hs, andb_false_r, andb_false_r. cbn [snd fst]. split; [discriminate|reflexivity].
+  Qed.
+
+  (* exactly when a proposal is auto-committed *)
+  Lemma auto_commit_iff : forall c e r,
+    existsb (N.eqb (100000 + e_id e)) (k_seen (kc c)) = false ->
+    (snd (leave_here c e r) = RAuto <->
+     is_admin c = true /\ k_pending (kc c) = None /\ self_remove e = true).
+  Proof.
+    intros c e r Hseen. unfold leave_here. rewrite Hseen. cbv zeta.
+    destruct (is_admin c); destruct (k_pending (kc c)) as [p|]; destruct (self_remove e); cbn [andb snd];
+      split; try discriminate; try (intros (A & B & C); discriminate); try (intros _; repeat split; reflexivity); try reflexivity.
+  Qed.
+
+  (* and the commit it creates removes the proposer only *)
+  Lemma auto_commit_removes_proposer : forall c e r,
+    snd (leave_here c e r) = RAuto ->
+    exists id, k_pending (kc (fst (leave_here c e r))) = Some (id, 0, [e_author e]).
+  Proof.
+    intros c e r. unfold leave_here, fail_unprocessable.
+    destruct (existsb (N.eqb (100000 + e_id e)) (k_seen (kc c))); [discriminate|].
+    cbv zeta. destruct (is_admin c && _); [|discriminate].
+    intros _. eexists. reflexivity.
+  Qed.
+
+  (* non-vacuity: member 2's Remove proposal naming member 3 is not a request to leave; its own leave is *)
+  Example third_party_example :
+    let e v := mkEvent 5 2 100 0 2 0 1 true 0 0 v [] 0 in
+    (self_remove (e [3]), self_remove (e [2]), self_remove (e [])) = (false, true, true).
+  Proof. vm_compute. reflexivity. Qed.
+End ThirdPartyRemove.
